@@ -251,9 +251,21 @@ pub fn gen(args: &Args, out: &mut dyn Write) {
     let mut rng = Rng::new(args.seed ^ 0xC11F);
     for i in 0..n {
         let r = *rng.pick(&[4i64, 8, 16, 16]);
-        let t = gen_tri(&mut rng, r);
+        let mut t = gen_tri(&mut rng, r);
+        // every 50th: a triangle cut by ALL six planes, each of its edges contributing a side too - what
+        // remains has nine corners: (k, 0, -k), (-k, k, 0), (0, -k, k) with 1 < k < 2, in units of w / 4
+        if i % 50 == 9 {
+            let w = *rng.pick(&[4i64, 8, 12]);
+            let k = w + rng.range(1, w - 1);
+            t = [[k, 0, -k, w], [-k, k, 0, w], [0, -k, k, w]];
+            let rot = rng.below(3) as usize;
+            t.rotate_left(rot);
+            if rng.chance(1, 2) { t.swap(1, 2); }
+            if rng.chance(1, 2) { for v in t.iter_mut() { v[0] = -v[0]; } }
+        }
         let mut c = tri_json(&mut rng, t);
-        let nb = rng.below(5) as usize;
+        // (every 40th call is a long one: more than 64, 128 triangles)
+        let nb = if i % 40 == 17 { rng.range(64, 140) as usize } else { rng.below(5) as usize };
         let others: Vec<Value> = (0..nb).map(|_| { let o = gen_tri(&mut rng, r); tri_json(&mut rng, o) }).collect();
         // every third call: a neighbour sharing an edge with the triangle (same two positions, its own
         // attributes: a seam) is clipped right after or right before it
